@@ -73,3 +73,55 @@ Definition ex_state_skim : state CP :=
 
 Definition res_val {A} (r : result (A * Z)) : Z := match r with Ok (_, v) => v | Err _ => -1 end.
 Definition res_err {A} (r : result A) : option err := match r with Ok _ => None | Err e => Some e end.
+
+(* ---------------------------------------------------------------- witnesses used by Properties/C05.v *)
+Definition wl_route : list (Z * Z) := [(1, 2); (2, 3); (3, 4)].
+Lemma nodup_wl_route : NoDup (map fst wl_route).
+Proof. repeat constructor; cbn; intuition discriminate. Qed.
+Lemma res_val_ok : forall (r : result (state CP * Z)) v, res_val r = v -> v <> -1 -> exists s', r = Ok (s', v).
+Proof. intros [[s' x]|e] v H N; simpl in H; [exists s'; congruence|congruence]. Qed.
+
+(* a whitelisted sender (Trader 7): the routed swap delivers 2985, the estimate on the same state says 2951 *)
+Lemma whitelisted_witness : exists s',
+  route_exact_in CP ex_state (Trader 7) wl_route 1 10000 1 = Ok (s', 2985) /\
+  snd (estimate_in CP ex_state wl_route 1 10000) = Ok 2951.
+Proof.
+  destruct (res_val_ok (route_exact_in CP ex_state (Trader 7) wl_route 1 10000 1) 2985) as [s' E];
+    [vm_compute; reflexivity|discriminate|].
+  exists s'. split; [exact E|vm_compute; reflexivity].
+Qed.
+
+(* the same pool twice: the routed swap delivers 99702, the estimate says 95873 *)
+Lemma repeated_pool_witness : exists s',
+  route_exact_in CP ex_state (Trader 0) [(1, 2); (1, 1)] 1 100000 1 = Ok (s', 99702) /\
+  snd (estimate_in CP ex_state [(1, 2); (1, 1)] 1 100000) = Ok 95873.
+Proof.
+  destruct (res_val_ok (route_exact_in CP ex_state (Trader 0) [(1, 2); (1, 1)] 1 100000 1) 99702) as [s' E];
+    [vm_compute; reflexivity|discriminate|].
+  exists s'. split; [exact E|vm_compute; reflexivity].
+Qed.
+
+(* share agreements of 60 % on denoms 1 and 3: the two-hop message fails in TakerFeeSkim, its hops succeed *)
+Lemma skim_witness :
+  res_err (handle CP ex_state_skim (MSwapIn (Trader 0) [(1, 2); (2, 3)] 1 10000 1)) = Some ESkim /\
+  res_err (match handle CP ex_state_skim (MSwapIn (Trader 0) [(1, 2)] 1 10000 1) with
+           | Err e => Err e
+           | Ok (s1, out) => handle CP s1 (MSwapIn (Trader 0) [(2, 3)] 2 out 1)
+           end) = None.
+Proof. split; vm_compute; reflexivity. Qed.
+
+Lemma nonvacuous_witness :
+  NoDup (map fst wl_route) /\ fee_neutral CP ex_state (Trader 0) /\
+  res_val (route_exact_in CP ex_state (Trader 0) wl_route 1 10000 2951) = 2951 /\
+  res_err (route_exact_in CP ex_state (Trader 0) wl_route 1 10000 2952) = Some ELimit /\
+  snd (estimate_in CP ex_state wl_route 1 10000) = Ok 2951 /\
+  res_val (route_exact_out CP ex_state (Trader 0) [(1, 1); (2, 2)] 4223 3 5000) = 4223 /\
+  snd (estimate_out CP ex_state [(1, 1); (2, 2)] 3 5000) = Ok 4223 /\
+  res_err (route_exact_out CP ex_state (Trader 0) [(1, 1); (2, 2)] 4222 3 5000) = Some ELimit /\
+  res_val (split_exact_in CP ex_state (Trader 0) [([(1, 2); (2, 3)], 10000); ([(4, 3)], 20000)] 1 37426) = 37426 /\
+  res_val (route_exact_in CP ex_state (Trader 0) [(1, 2); (2, 3)] 1 10000 1) = 11824 /\
+  res_val (split_exact_out CP ex_state (Trader 0) [([(1, 1); (2, 2)], 5000); ([(4, 1)], 7000)] 3 9681) = 9681.
+Proof.
+  split; [exact nodup_wl_route|]. split; [left; reflexivity|].
+  repeat split; vm_compute; reflexivity.
+Qed.
